@@ -1506,15 +1506,21 @@ def case_csv(run: Run, rng):
             if got is None and all(math.isnan(cols[k][i]) for i in order):
                 continue
             same = lambda g, w: float(g) == w or (math.isnan(float(g)) and math.isnan(w))
-            close = lambda g, w: same(g, w) or abs(float(g) - w) <= 4 * abs(w) * 2.0 ** -52
+            # pandas' python engine converts decimal text with its own routine, which is not correctly rounded: 1 ulp is
+            # usual, 14 ulp were observed for 0.036287949387485696 (17 significant digits after leading zeros).  Everything
+            # up to 2^-44 relative (256 ulp, eight orders of magnitude below a wrong printed digit) is the known finding
+            # `csv_:readback-last-digit`; anything beyond is a wrong value.
+            close = lambda g, w: same(g, w) or abs(float(g) - w) <= abs(w) * 2.0 ** -44
             if got is None or any(not close(g, cols[k][i]) for g, i in zip(got, order)):
                 ctx.violate("csv_:readback-values", f"column {k} (default format): wrote {[cols[k][i] for i in order][:4]} read "
                             f"{None if got is None else list(got)[:4]}", case)
                 return
             off = [(cols[k][i], float(g)) for g, i in zip(got, order) if not same(g, cols[k][i])]
             if off:
+                worst = max(off, key=lambda p: abs(p[1] - p[0]) / math.ulp(p[0]))
                 ctx.violate("csv_:readback-last-digit", f"column {k} (default format prints the shortest repr of the double): wrote "
-                            f"{off[0][0]!r}, the csv_ parser returns the neighbouring double {off[0][1]!r}", case)
+                            f"{worst[0]!r}, the csv_ parser returns the neighbouring double {worst[1]!r} "
+                            f"({abs(worst[1] - worst[0]) / math.ulp(worst[0]):.0f} ulp off)", case)
                 return
         elif f == "s":
             got = [str(x) for x in back.get(k, [])]
